@@ -307,3 +307,23 @@ CHECKS["C10"] = {
     ),
     "note": "Chunk concatenation and timestamps as values are not decided beyond the structural facts above." + TRUSTED,
 }
+
+CHECKS["C16"] = {
+    "technique": "obligation-tracking abstract interpretation of the read loop + structural decoder/eagerness/equality rules",
+    "text": (
+        "content._iter_chunks is interpreted abstractly with every value returned by stream.read() an obligation: it is "
+        "yielded exactly once before being overwritten (so order is kept) or it is falsy and ends the loop; only "
+        "truthy chunks are yielded; every read asks for chunk_size; the seek happens iff an offset was given, before "
+        "the first read, with both arguments -- closed by the loop fixed point, so it holds for every file length "
+        "(the multiple-of-chunk-size off-by-one the tests never sample). Content._iter_text uses one incremental "
+        "decoder created before the loop, one decode per chunk, no per-chunk bytes.decode, and a final=True flush "
+        "whose non-empty result is yielded; default charset ISO-8859-1. content_from_reader reads now iff buffer_now; "
+        "file/stream helpers touch their source only inside the nested reader and pass chunk_size/seek through; "
+        "text_content encodes with the charset it declares. Content equality compares type and joined bytes of both "
+        "sides; ContentType compares and renders every field."
+    ),
+    "note": (
+        "Not decided (runtime values): round trips over the Unicode range, cut positions inside multi-byte "
+        "sequences, and MIME render/re-parse. Assumes stream.read and codecs incremental decoder contracts." + TRUSTED
+    ),
+}
